@@ -100,6 +100,30 @@ func c09(c *an.Check) {
 				r := s.Rel(nres, ssa.NewConst(zeroInt(), nres.Type()))
 				return r != an.ANY && r&an.EQ == 0
 			}}}})
+		// freshness: each iteration reads into a buffer obtained in that iteration — chunks still waiting in the queue must
+		// not share storage with the buffer of the next read
+		{
+			okFresh, whyFresh := false, "the buffer read into is not a local variable assigned from an allocation"
+			loop := an.InnermostLoop(rx, r0.Block())
+			if cell, isCell := varOf(r0.Call.Args[0]).(*ssa.Alloc); isCell && loop != nil {
+				for _, sto := range p.Stores(cell) {
+					if loop[sto.Block()] && sto.Block().Dominates(r0.Block()) {
+						if _, isCall := sto.Val.(*ssa.Call); isCall {
+							okFresh = true
+						}
+						if _, isMk := sto.Val.(*ssa.MakeSlice); isMk {
+							okFresh = true
+						}
+					}
+				}
+				if !okFresh {
+					whyFresh = "the read buffer is obtained outside the pump loop: every queued chunk aliases the one buffer the next Read overwrites"
+				}
+			} else if loop == nil {
+				whyFresh = "the stream Read is not inside the pump loop"
+			}
+			c.Require(okFresh, "LOOPALLOC", "rwc.Conn.rxPump reads each chunk into a buffer of its own", rx, "", 1, "buffer (re)assigned from the arena inside the loop, before the Read", whyFresh)
+		}
 		// ownership: a buffer that was offered to the queue is never handed back to the arena by the pump
 		c.Gate(an.GateSpec{Rule: "OWNERSHIP", Construct: "rwc.Conn.rxPump recycles a read buffer", Fn: rx,
 			Sink: func(s *an.State, ins ssa.Instruction) bool {
